@@ -116,3 +116,44 @@ def tsan_replay(requests, name, timeout=3600):
         return res
     res.update(status="clean", summary=json.loads(summary[-1]))
     return res
+
+
+def memcheck_replay(requests, name, timeout=2400):
+    """valgrind memcheck over the plain verif build of the worker (no rebuild needed; ~25x). Unlike
+    Miri it follows the C code of the FFI dependencies (zstd). Leak checking is off: the worker keeps
+    caches alive on purpose."""
+    from .pool import WORKER_BIN
+    path = _write(requests, "memcheck-" + name)
+    t0 = time.time()
+    log = os.path.join(BUILD, "rec", "memcheck-%s.log" % name)
+    try:
+        p = subprocess.run(["valgrind", "--tool=memcheck", "--error-exitcode=99", "--leak-check=no",
+                            "--num-callers=30", "--log-file=" + log, WORKER_BIN, "--replay-file", path],
+                           env=_env({}), stdout=subprocess.PIPE, stderr=subprocess.PIPE, timeout=timeout)
+    except subprocess.TimeoutExpired:
+        return {"status": "inconclusive", "reason": "memcheck_timeout", "wall_s": round(time.time() - t0, 1)}
+    except OSError as e:
+        return {"status": "inconclusive", "reason": "valgrind_unavailable: %s" % e}
+    out = p.stdout.decode("utf-8", "replace")
+    try:
+        err = open(log, errors="replace").read()
+    except OSError:
+        err = ""
+    res = {"wall_s": round(time.time() - t0, 1), "requests": len(requests)}
+    kinds = re.findall(r"==\d+== (Invalid (?:read|write|free)[^\n]*|Conditional jump or move depends on uninitialised[^\n]*|"
+                       r"Use of uninitialised value[^\n]*|Mismatched free[^\n]*|Source and destination overlap[^\n]*|"
+                       r"Syscall param [^\n]*uninitialised[^\n]*)", err)
+    m = re.search(r"ERROR SUMMARY: (\d+) errors", err)
+    nerr = int(m.group(1)) if m else None
+    if kinds or p.returncode == 99:
+        frames = re.findall(r"(?:at|by) 0x[0-9A-F]+: (\S+) \(([^)]*)\)", err)
+        loc = next((f[0] for f in frames if not f[0].startswith(("malloc", "free", "realloc", "calloc", "mem"))), "?")
+        res.update(status="report", kind=kinds[0] if kinds else "memcheck error", reports=nerr or len(kinds),
+                   location=loc, stderr=_tail(err, 4000))
+        return res
+    summary = [l for l in out.splitlines() if '"replayed"' in l]
+    if p.returncode != 0 or not summary or nerr is None:
+        res.update(status="inconclusive", reason="memcheck_run_failed(rc=%s)" % p.returncode, stderr=_tail(err))
+        return res
+    res.update(status="clean", summary=json.loads(summary[-1]), error_summary=nerr)
+    return res
